@@ -166,8 +166,97 @@ def collect(outroot="/tmp"):
   print("collected", len(rows), "missed:", [r[0] for r in rows if r[1].endswith("MISSED")])
 
 
+def process3(pid, k, others=(), outroot="/tmp"):
+  """Third wave: verify /tmp/out3_<pid>/<k>, run the quick check(s), store under seeded/<pid>-w3-<k>."""
+  src = os.path.join(outroot, "out3_" + pid, str(k))
+  name = "%s-w3-%s" % (pid, k)
+  ver = verify(src)
+  json.dump(ver, open(os.path.join(src, "verify.json"), "w"), indent=1)
+  if not ver["ok"]:
+    print("NOT VERIFIED", name, json.dumps(ver)[:1500])
+    return
+  res = None
+  for c in (pid,) + tuple(others):
+    fn = os.path.join(src, "check_quick_%s.json" % c)
+    r = check(src, c, "quick")
+    json.dump(r, open(fn, "w"), indent=1)
+    print(name, c, "DETECTED" if r["detected"] else "MISSED", r["secs"], "s", r["first"][:300] or r["tail"][-300:])
+    if r["detected"] and res is None:
+      res = r
+  store3(pid, k, outroot)
+
+
+def store3(pid, k, outroot="/tmp"):
+  import glob
+  src = os.path.join(outroot, "out3_" + pid, str(k))
+  name = "%s-w3-%s" % (pid, k)
+  dst = os.path.join(VERIF, "seeded", name)
+  os.makedirs(dst, exist_ok=True)
+  for fn in ("patch.diff", "demo.py", "notes.md"):
+    if os.path.exists(os.path.join(src, fn)):
+      shutil.copy(os.path.join(src, fn), os.path.join(dst, fn))
+  ver = json.load(open(os.path.join(src, "verify.json")))
+  needs = "see notes.md"
+  try:
+    for l in open(os.path.join(src, "notes.md")):
+      if "NEEDS:" in l:
+        needs = l.split("NEEDS:", 1)[1].strip().strip("*_` ")
+        break
+  except OSError:
+    pass
+  runs = [json.load(open(f)) for f in sorted(glob.glob(os.path.join(src, "check_*_C*.json")))]
+  det = [r for r in runs if r.get("detected")]
+  det.sort(key=lambda r: (r["check"] != pid, r["tier"] != "quick"))
+  d = det[0] if det else None
+  meta = {
+      "property": pid, "change": name, "needs_to_manifest": needs,
+      "written_by": "independent sub-agent given only the property text and a scratch worktree (third wave)",
+      "verified": {"command": "seedtool.py verify <dir>", "demo_exit_on_HEAD": ver["demo_unpatched"]["rc"],
+                   "demo_exit_with_patch": ver["demo_patched"]["rc"],
+                   "baseline_tests_passed_with_patch": ver["baseline_passed"]},
+      "detected_by": {"check": d["check"] if d else pid, "tier": d["tier"] if d else "MISSED",
+                      "first_violation": d["first"][:400] if d else "", "seconds": d["secs"] if d else None},
+      "runs": [{"check": r["check"], "tier": r["tier"], "detected": r["detected"], "seconds": r["secs"]} for r in runs],
+      "adapted": None,
+  }
+  json.dump(meta, open(os.path.join(dst, "meta.json"), "w"), indent=1)
+  summary()
+
+
+def summary():
+  """SUMMARY.md from the meta.json files under seeded/ (no dependence on scratch directories)."""
+  import glob
+  def order(d):
+    n = os.path.basename(d)
+    m = re.match(r"(C\d+)(?:-w(\d))?-(\d+)$", n)
+    return (int(m.group(2) or 1), m.group(1), int(m.group(3))) if m else (9, n, 0)
+  rows = []
+  for d in sorted(glob.glob(os.path.join(VERIF, "seeded", "C*")), key=order):
+    try:
+      meta = json.load(open(os.path.join(d, "meta.json")))
+    except OSError:
+      continue
+    db = meta["detected_by"]
+    rows.append((meta["change"], "%s %s" % (db["check"], db["tier"]), meta["needs_to_manifest"], db["first_violation"]))
+  with open(os.path.join(VERIF, "seeded", "SUMMARY.md"), "w") as f:
+    f.write("# Seeded changes and the checks that catch them\n\n| change | caught by (tier) | needs | first violation reported |\n|---|---|---|---|\n")
+    for name, det, needs, first in rows:
+      first = first.split("#", 1)[-1].strip().replace("|", "/")[:160]
+      f.write("| %s | %s | %s | %s |\n" % (name, det, needs.replace("|", "/"), first))
+  print("summary:", len(rows), "missed:", [r[0] for r in rows if r[1].endswith("MISSED")])
+
+
 if __name__ == "__main__":
   cmd = sys.argv[1]
+  if cmd == "process3":
+    process3(sys.argv[2], sys.argv[3], tuple(sys.argv[4:]))
+    sys.exit(0)
+  if cmd == "store3":
+    store3(sys.argv[2], sys.argv[3])
+    sys.exit(0)
+  if cmd == "summary":
+    summary()
+    sys.exit(0)
   if cmd == "collect":
     collect()
     sys.exit(0)
